@@ -24,6 +24,16 @@ use std::time::{SystemTime, UNIX_EPOCH};
 
 pub mod util;
 mod fam_bitvec;
+mod fam_bitfield;
+mod fam_ranksel;
+mod fam_ef;
+mod fam_rcl;
+mod fam_sigstore;
+mod fam_shardedge;
+mod fam_mod2;
+mod fam_lender;
+mod fam_vbuild;
+mod fam_atomic;
 
 pub struct Ctx {
     out: Arc<Mutex<File>>,
@@ -214,6 +224,16 @@ fn main() {
         let fam = ep["fam"].as_str().unwrap_or("");
         match fam {
             "bitvec" => fam_bitvec::run(&ep, &mut ctx),
+            "bitfield" => fam_bitfield::run(&ep, &mut ctx),
+            "ranksel" => fam_ranksel::run(&ep, &mut ctx),
+            "ef" => fam_ef::run(&ep, &mut ctx),
+            "rcl" => fam_rcl::run(&ep, &mut ctx),
+            "sigstore" => fam_sigstore::run(&ep, &mut ctx),
+            "shardedge" => fam_shardedge::run(&ep, &mut ctx),
+            "mod2" => fam_mod2::run(&ep, &mut ctx),
+            "lender" => fam_lender::run(&ep, &mut ctx),
+            "vbuild" => fam_vbuild::run(&ep, &mut ctx),
+            "atomic" => fam_atomic::run(&ep, &mut ctx),
             _ => {
                 eprintln!("unknown family {fam}");
                 std::process::exit(2);
